@@ -242,6 +242,9 @@ def _fp_region(case, odd_only=False):
     b = (int(rng.choice(sizes)), int(rng.choice(sizes)))
     form = rng.random()
     bb = b if form < 0.5 else (list(b) if form < 0.75 else np.array(b))
+    if b[0] != b[1]:
+        case.note('axis2_aniso_box_ny_ne_nx')
+    case.note('axis2_parity_box_' + ('even' if (b[0] % 2 == 0 or b[1] % 2 == 0) else 'odd'))
     return dict(box_size=bb), np.ones(b, bool), f'box{b[0]}x{b[1]}'
 
 
@@ -353,7 +356,12 @@ def _run_find_peaks(case):
             yy, xx = np.mgrid[0:ny, 0:nx].astype(float)
             error = 1.0 + 0.3 * xx + 0.2 * yy + rng.uniform(0, 1, size=shape)
     quantity = cls == 'fp_quantity'
-    int_dtype = bool(np.all(np.isfinite(data)) and np.all(data == np.round(data)) and rng.random() < 0.2)
+    int_dtype = bool(np.all(np.isfinite(data)) and np.all(data == np.round(data)) and rng.random() < 0.3)
+    int_name = 'int64'
+    if int_dtype:
+        feas_ = [d_ for d_ in _feasible_dtypes(data) if d_ != 'float32']
+        int_name = str(rng.choice(feas_)) if feas_ else 'int64'
+        case.note('axis2_dtype_image_' + int_name)
     # overall magnitude of image, threshold (and error map): the selection does not depend on it
     mag = 1.0 if int_dtype else _magnitude(rng)
     if mag != 1.0:
@@ -387,6 +395,8 @@ def _run_find_peaks(case):
     if border is not None:
         b = np.atleast_1d(border)
         bpair = (int(b[0]), int(b[0])) if b.size == 1 else (int(b[0]), int(b[1]))
+        if bpair[0] != bpair[1]:
+            case.note('axis2_aniso_border_ny_ne_nx')
     status, reasons = ref.peak_status(data, thr, fp, mask, bpair)
     nmust, neither = int((status == ref.MUST).sum()), int((status == ref.EITHER).sum())
     constant = bool(np.all(data == data.flat[0]))
@@ -403,7 +413,7 @@ def _run_find_peaks(case):
         case.note('axis_dtype_float32')
 
     def call(np_, factor=None):
-        d_in = data.astype(int) if int_dtype else (data.astype(np.float32) if f32 else data.copy())
+        d_in = data.astype(int_name) if int_dtype else (data.astype(np.float32) if f32 else data.copy())
         t_in = np.copy(thr) if np.ndim(thr) else float(thr)
         if factor is not None:
             d_in = d_in * factor
@@ -798,6 +808,8 @@ class _Finder:
             kw['xycoords'] = [[float(a), float(b)] for a, b in kw['xycoords']]
         elif form.get('xy') == 'float' and kw.get('xycoords') is not None:
             kw['xycoords'] = np.asarray(kw['xycoords'], float)
+        elif form.get('xy') in ('int32', 'uint16', 'float32') and kw.get('xycoords') is not None:
+            kw['xycoords'] = np.asarray(kw['xycoords']).astype(form['xy'])
         if form.get('quantity'):
             kw['threshold'] = kw['threshold'] * u.adu
             if kw.get('peakmax') is not None:
@@ -844,10 +856,28 @@ class _Finder:
         return 'max_value' if self.kind == 'sf' else 'peak'
 
 
-def _run(finder, data, mask, form=None, factor=None):
+def _feasible_dtypes(data):
+    """Narrow / unsigned dtypes that hold the (integer-valued, finite) image exactly."""
+    a = np.asarray(data, float)
+    if not (np.all(np.isfinite(a)) and np.all(a == np.round(a))):
+        return []
+    lo, hi = float(a.min()), float(a.max())
+    out = []
+    for name in ('uint8', 'uint16', 'uint32', 'uint64', 'int8', 'int16', 'int32', 'int64'):
+        info = np.iinfo(name)
+        if lo >= info.min and hi <= info.max:
+            out.append(name)
+    if max(abs(lo), abs(hi)) < 2 ** 24:
+        out.append('float32')
+    return out
+
+
+def _run(finder, data, mask, form=None, factor=None, dtype=None):
     import astropy.units as u
     from photutils.utils.exceptions import NoDetectionsWarning
     form = form or {}
+    if dtype is not None:
+        data = np.asarray(data).astype(dtype)
     d_in = _layout(data if factor is None else data * factor, form.get('layout', 'C'))
     m_in = _layout(mask, form.get('layout', 'C'))
     if form.get('quantity'):
@@ -956,6 +986,18 @@ def _run_star(case):
     data, sig = _star_scene(case, sparse)
     ny, nx = data.shape
     mag = _magnitude(rng, p_unit=0.55)
+    counts = bool(rng.random() < 0.3)
+    if counts:
+        # integer detector counts (non-negative for the realistic scenes): the image can be handed over in
+        # narrow / unsigned dtypes holding exactly the same numbers
+        mag = 1.0
+        if not sparse:
+            scale_ = float(rng.choice([1.0, 1.0, 0.25, 20.0]))      # 0.25: fits uint8; 20: beyond uint8/int16 range
+            data = np.clip(np.rint(data * scale_ + float(rng.choice([0, 40, 300]))), 0, None)
+            sig = sig * scale_
+        else:
+            data = np.rint(data)
+        case.note('axis2_dtype_integer_counts_scene')
     data = data * mag
     fin_ = np.abs(data[np.isfinite(data)])
     case.note('data_magnitude_' + _bucket(float(fin_.max()) if fin_.size else 0.0))
@@ -985,13 +1027,13 @@ def _run_star(case):
     F.form = {'layout': str(rng.choice(LAYOUTS)),
               'quantity': bool(rng.random() < 0.12),
               'scalars': str(rng.choice(['python', 'python', 'numpy'])),
-              'xy': str(rng.choice(['int', 'int', 'float', 'list'])),
+              'xy': str(rng.choice(['int', 'int', 'float', 'list', 'int32', 'uint16', 'float32'])),
               'positional': bool(rng.random() < 0.3)}
     for k_, v_ in F.form.items():
         case.note(f'axis_form_{k_}_{v_}')
 
-    def run_(finder, data_, mask_, factor=None):       # all runs of this case use the same call form
-        return _run(finder, data_, mask_, F.form, factor)
+    def run_(finder, data_, mask_, factor=None, dtype=None):       # all runs of this case use the same call form
+        return _run(finder, data_, mask_, F.form, factor, dtype)
 
     fw = F.make()
     karr = F.kernel_array(fw)
@@ -1014,6 +1056,31 @@ def _run_star(case):
     case.note('star_wide_rows', nW)
     case.note('star_candidate_peaks', len(cand))
     case.note('star_must_peaks', len(must))
+    # (x) provenance: the same finder object asked a second time
+    W2, w2 = run_(fw, data, mask)
+    case.check(w2 == (W2 is None), 'star_warning_iff_none', dict(mech, table='second_call'))
+    case.close(_table_rows(W2, F.cols), rowsW if rowsW is not None else np.zeros((0, len(F.cols))),
+               'star_same_finder_second_call_identical', mech=mech)
+    case.note('axis2_provenance_finder_reused')
+    # (xi) a caller-owned all-False mask is the same as no mask (and stays untouched)
+    if mask is None and rng.random() < 0.2:
+        T0, _ = run_(fw, data, np.zeros(data.shape, bool))
+        case.close(_table_rows(T0, F.cols), rowsW if rowsW is not None else np.zeros((0, len(F.cols))),
+                   'star_all_false_mask_equals_no_mask', mech=mech)
+        case.note('axis2_setlike_mask_all_false')
+    # (viii) anisotropy / one-sided edges counters
+    if karr.shape[0] != karr.shape[1]:
+        case.note('axis2_aniso_kernel_not_square')
+    if ny >= nx + 2:
+        case.note('axis2_aniso_image_tall')
+    elif nx >= ny + 2:
+        case.note('axis2_aniso_image_wide')
+    if len(cand):
+        for nm, sel in (('left', cand[:, 0] <= xr), ('right', cand[:, 0] >= nx - 1 - xr),
+                        ('bottom', cand[:, 1] <= yr), ('top', cand[:, 1] >= ny - 1 - yr)):
+            if sel.any():
+                case.note('axis2_edge_peak_near_' + nm)
+    case.note('axis2_parity_min_separation_' + ('integer' if float(msep).is_integer() else 'fractional'))
 
     _model = {}
 
@@ -1045,6 +1112,32 @@ def _run_star(case):
         return outs[0].shape == outs[1].shape and bool(np.all(np.abs(outs[0] - outs[1]) <= 1e-7))
 
     _check_rescaled(case, F, rowsW, Wk, wWk, kf, mech, 'wide', probe)
+
+    # (T) the same numbers in a narrow / unsigned dtype: the same table
+    twin_dtypes = []
+    if counts and not has_nan and not F.form.get('quantity'):
+        feas = _feasible_dtypes(data)
+        if sparse and 'float32' in feas:
+            feas.remove('float32')      # exact ties of the sparse scenes are broken by the float32 convolution
+        if feas:
+            twin_dtypes = [str(v) for v in rng.choice(feas, size=min(2, len(feas)), replace=False)]
+    for dt in twin_dtypes:
+        case.note('axis2_dtype_image_' + dt)
+        Wd, wWd = run_(fw, data, mask, dtype=dt)
+        md = dict(mech, dtype=dt, table='wide')
+        case.check(wWd == (Wd is None), 'star_warning_iff_none', dict(md, table='dtype_twin'))
+        rows_d = _table_rows(Wd, F.cols)
+        rows_0 = rowsW if rowsW is not None else np.zeros((0, len(F.cols)))
+        if dt == 'float32':
+            # the convolution then runs in float32: peaks within ~1e-7 (relative) of the threshold or of a tied
+            # neighbour may legitimately differ; judged only when the same sources were selected
+            if len(rows_d) == len(rows_0):
+                case.close(rows_d, rows_0, 'star_same_table_for_float32_image', rtol=2e-4, atol=2e-4, mech=md)
+            else:
+                case.note('float32_image_selects_other_sources_not_judged')
+        elif case.check(len(rows_d) == len(rows_0), 'star_same_table_for_narrow_dtype', md, rows=len(rows_0),
+                        rows_dtype=len(rows_d)):
+            case.close(rows_d, rows_0, 'star_same_table_for_narrow_dtype', mech=md)
 
     # (A) every centroid within the kernel half-size of a candidate peak
     near = []
@@ -1119,6 +1212,10 @@ def _run_star(case):
             if ncand >= 2:
                 size = int(rng.integers(1, ncand))
                 sub = np.sort(rng.choice(ncand, size=size, replace=False))
+                if rng.random() < 0.5:
+                    # set-like argument: duplicates and arbitrary order are positions like any other
+                    sub = rng.choice(ncand, size=size + 1, replace=True)
+                    case.note('axis2_setlike_xycoords_duplicates_unsorted')
                 RS, wS = run_(F.make(xycoords=cand[sub].copy()), data, mask)
                 rowsRS = _table_rows(RS, F.cols)
                 case.check(wS == (RS is None), 'star_warning_iff_none', dict(mech, table='xycoords_sub'))
@@ -1235,6 +1332,10 @@ def _run_star(case):
         if B is not None and len(exp) == len(rowsB):
             # order of the rows is the order of the wide-open table (ids are renumbered consecutively)
             case.close(rowsB, exp, 'star_bounded_table_keeps_order', mech=mb)
+        if rep == 0 and twin_dtypes and twin_dtypes[0] != 'float32':
+            Bd, _ = run_(F.make(**b), data, mask, dtype=twin_dtypes[0])
+            case.close(_table_rows(Bd, F.cols), rowsB, 'star_same_table_for_narrow_dtype',
+                       mech=dict(mb, dtype=twin_dtypes[0], table='bounded'))
         if rep == 0:
             Bk, wBk = run_(F.make(factor=kf, **b), data, mask, factor=kf)
             _check_rescaled(case, F, rowsB if B is not None else None, Bk, wBk, kf, mb, 'bounded',
